@@ -457,40 +457,57 @@ func (e *enc) builtin(st *State, b *ssa.Builtin, c *ssa.CallCommon, ins ssa.Inst
 }
 
 func (e *enc) appendBuiltin(st *State, c *ssa.CallCommon) string {
-	s := e.val(c.Args[0])
+	s0 := e.val(c.Args[0])
 	sl := c.Args[0].Type().Underlying().(*types.Slice)
 	et := sl.Elem()
 	es := sortOf(et)
-	var k, src string
-	srcIsStr := false
 	if len(c.Args) < 2 {
-		return s
+		return s0
 	}
+	// name the operands so that the axioms stay small
+	s := e.fresh("apps", "Slice")
+	e.assert(eq(s, s0))
 	a1 := e.val(c.Args[1])
-	if isString(c.Args[1].Type()) {
-		k = fmt.Sprintf("(strlen %s)", a1)
-		srcIsStr = true
+	srcIsStr := isString(c.Args[1].Type())
+	k := e.fresh("appk", "Int")
+	src := a1
+	if srcIsStr {
+		e.assert(fmt.Sprintf("(= %s (strlen %s))", k, a1))
 	} else {
-		k = fmt.Sprintf("(slen %s)", a1)
+		src = e.fresh("appsrc", "Slice")
+		e.assert(eq(src, a1))
+		e.assert(fmt.Sprintf("(= %s (slen %s))", k, src))
 	}
-	src = a1
 	r := e.fresh("app", "Slice")
 	narr := e.newObjRef()
 	ncap := e.fresh("appcap", "Int")
-	n := fmt.Sprintf("(+ (slen %s) %s)", s, k)
-	fits := fmt.Sprintf("(<= %s (scap %s))", n, s)
-	e.assert(fmt.Sprintf("(= %s (ite %s (mkslice (sarr %s) (soff %s) %s (scap %s)) (mkslice %s 0 %s %s)))", r, fits, s, s, n, s, narr, n, ncap))
+	n := e.fresh("appn", "Int")
+	e.assert(fmt.Sprintf("(= %s (+ (slen %s) %s))", n, s, k))
+	fits := e.fresh("appfits", "Bool")
+	e.assert(fmt.Sprintf("(= %s (<= %s (scap %s)))", fits, n, s))
+	e.assert(fmt.Sprintf("(=> %s (= %s (mkslice (sarr %s) (soff %s) %s (scap %s))))", fits, r, s, s, n, s))
+	e.assert(fmt.Sprintf("(=> (not %s) (= %s (mkslice %s 0 %s %s)))", fits, r, narr, n, ncap))
 	e.assert(fmt.Sprintf("(>= %s %s)", ncap, n))
 	if isHeapScalar(es) {
 		old := e.heap(st, es)
 		nw := e.fresh("Mem_"+sortKey(es)+"_app", "(Array Ref "+es+")")
-		srcVal := fmt.Sprintf("(select %s (elem (sarr %s) (+ (soff %s) (- (eidx r) (soff %s) (slen %s)))))", old, src, src, r, s)
-		if srcIsStr {
-			srcVal = fmt.Sprintf("(strat %s (- (eidx r) (soff %s) (slen %s)))", src, r, s)
+		srcAt := func(i string) string {
+			if srcIsStr {
+				return fmt.Sprintf("(strat %s %s)", src, i)
+			}
+			return fmt.Sprintf("(select %s (elem (sarr %s) (+ (soff %s) %s)))", old, src, src, i)
 		}
-		e.assert(fmt.Sprintf("(forall ((r Ref)) (! (= (select %s r) (ite (and ((_ is elem) r) (= (ebase r) (sarr %s)) (<= (+ (soff %s) (slen %s)) (eidx r)) (< (eidx r) (+ (soff %s) %s))) %s (ite (and (not %s) ((_ is elem) r) (= (ebase r) %s) (<= 0 (eidx r)) (< (eidx r) (slen %s))) (select %s (elem (sarr %s) (+ (soff %s) (eidx r)))) (select %s r)))) :pattern ((select %s r))))",
-			nw, r, r, s, r, n, srcVal, fits, narr, s, old, s, s, old, nw))
+		// in place: only the k cells after the old length change
+		e.assert(fmt.Sprintf("(=> %s (forall ((r Ref)) (! (= (select %s r) (ite (and ((_ is elem) r) (= (ebase r) (sarr %s)) (<= (+ (soff %s) (slen %s)) (eidx r)) (< (eidx r) (+ (soff %s) %s))) %s (select %s r))) :pattern ((select %s r)))))",
+			fits, nw, s, s, s, s, n, srcAt(fmt.Sprintf("(- (eidx r) (soff %s) (slen %s))", s, s)), old, nw))
+		// reallocated: the new array holds the old elements followed by the appended ones
+		e.assert(fmt.Sprintf("(=> (not %s) (forall ((r Ref)) (! (= (select %s r) (ite (and ((_ is elem) r) (= (ebase r) %s) (<= 0 (eidx r)) (< (eidx r) %s)) (ite (< (eidx r) (slen %s)) (select %s (elem (sarr %s) (+ (soff %s) (eidx r)))) %s) (select %s r))) :pattern ((select %s r)))))",
+			fits, nw, narr, n, s, old, s, s, srcAt(fmt.Sprintf("(- (eidx r) (slen %s))", s)), old, nw))
 		st.cells[heapCell(es)] = nw
+		// ground instances for the first and last appended cell (consequences of the two axioms
+		// above; they give quantified specifications a term to trigger on)
+		e.assert(fmt.Sprintf("(=> (> %s 0) (= (select %s (elem (sarr %s) (+ (soff %s) (slen %s)))) %s))", k, nw, r, r, s, srcAt("0")))
+		e.assert(fmt.Sprintf("(=> (> %s 1) (= (select %s (elem (sarr %s) (+ (soff %s) (- %s 1)))) %s))", k, nw, r, r, n, srcAt(fmt.Sprintf("(- %s 1)", k))))
 	} else {
 		ms := newModSet()
 		typeLeaves(et, ms.fields, ms.elems)
